@@ -134,6 +134,8 @@ theorem execOp_keepO (s : State) (me : Nat) (op : Op) (rest : List Op) (h : s.in
     cases hw : cancelR s t with
     | mk s1 b => rw [hw] at this; simp only []; exact this.finish _ _ _
   | exit => simp only [execOp]; exact KeepO.refl me s
+  | throw => simp only [execOp]; exact (Woke.abort s).keepO me
+  | rcleanup => simp only [execOp]; exact (Woke.abort s).keepO me
   | yield => simp only [execOp]; repeat' split
              all_goals keepo
   | wait => simp only [execOp]; repeat' split
